@@ -45,6 +45,9 @@ def install(ex):
         for k, fn in models_capi.REG: ex.register(k, fn)
     except ImportError:
         pass
+    from . import models_extra
+    for k, fn in models_extra.REG:
+        if not isinstance(k, str) or ex.find_model(k) is None: ex.register(k, fn)
 
 
 # --------------------------------------------------------------------------- helpers
